@@ -199,6 +199,10 @@ func (c *Client) Handshake() error {
 		return err
 	}
 
+	if !pong.AuthResult {
+		return fmt.Errorf("authentication rejected by the server: %s", pong.Reason)
+	}
+
 	if err := protocol.ValidatePongDigest(&pong, c.AuthInfo.SharedKey,
 		helo.Options.Nonce, salt); err != nil {
 		return err
